@@ -1,6 +1,7 @@
 import VtProofs.VplTyped
 import VtProofs.VplTotal
 import VtProofs.VplDepth
+import VtProofs.VplProps
 /-!
 # C18 — every well-formed pipeline text parses to the pipeline it describes
 
@@ -203,6 +204,28 @@ theorem bad_parameters_fail_pipeline (name : Str) (props : List (Str × List Str
 theorem bad_parameters_fail_transform (fmt name : Str) (props : List (Str × List Str)) (sources : List (List Node))
     (rest : List Node) (o : OpSig) (h : findOp false name = some o) (hd : decodeOk props o.fields = false) :
     buildTail fmt (.mk name props sources :: rest) = none := build_tran_decode fmt name props sources rest o h hd
+
+/-! ## the parameter map (`BTreeMap<String, Vec<String>>` of `parse_node`) -/
+
+/-- the keys of the map come out strictly ascending, each once (BTreeMap iteration order) -/
+theorem props_sorted (l : List (Str × List Str)) : Sorted (mkProps l) := mkProps_sorted l
+
+/-- **repeated keys append in text order**: looking a key up gives all the values written for it, in the order
+    of the text (`valsOf`), and nothing for keys that were not written -/
+theorem props_repeated_keys_append (l : List (Str × List Str)) (k : Str) :
+    lookupProp (mkProps l) k = if hasKey k l then some (valsOf k l) else none := lookup_mkProps l k
+
+/-- the map does not depend on how parameters of different keys are interleaved in the text -/
+theorem props_order_independent (l1 l2 : List (Str × List Str))
+    (h : ∀ k, hasKey k l1 = hasKey k l2 ∧ valsOf k l1 = valsOf k l2) : mkProps l1 = mkProps l2 :=
+  mkProps_order_independent l1 l2 h
+
+/-- for a written operation: the parsed operation carries, under each key, the values of all its `key=…`
+    parameters in text order -/
+theorem node_parameters {Pc : Type} (pt : Pc → Pipeline) (n : CNodeF Pc) (k : Str) :
+    (match n.tree pt with | .mk _ props _ => lookupProp props k) =
+      if hasKey k (n.props.map fun x => x.2.kv) then some (valsOf k (n.props.map fun x => x.2.kv)) else none :=
+  lookup_mkProps _ k
 
 /-! ## the order of the operations that are built -/
 
